@@ -5,6 +5,7 @@ from fractions import Fraction
 
 import fsamodel as F
 import translate_machines as TM
+import translate_fstops as TF
 from fsacheck import WTable, run_w, coq_str
 from common import dec_val, close_enough
 
@@ -68,7 +69,13 @@ def run(ctx):
     except TM.Refuse as e:
         ctx.obligation("translate_machines", False, f"translator refused: {e}")
         tr_ok = False
-    ok, out = ctx.build(["proofs/FilterMachine.vo", "proofs/ProductProofs.vo", "proofs/FstOpsProofs.vo", "model/FstCompose.vo", "model/EpsSpec.vo"]) if tr_ok else (False, "translator")
+    try:
+        ctx.cov["translators"].append(TF.main())   # FST.T / diag / project (bridged to the models in proofs/GenFstOpsBridge.v)
+        ctx.obligation("translate_fstops", True)
+    except TF.Refuse as e:
+        ctx.obligation("translate_fstops", False, f"translator refused: {e}")
+        tr_ok = False
+    ok, out = ctx.build(["proofs/FilterMachine.vo", "proofs/ProductProofs.vo", "proofs/FstOpsProofs.vo", "proofs/GenFstOpsBridge.vo", "model/FstCompose.vo", "model/EpsSpec.vo"]) if tr_ok else (False, "translator")
     if ok:
         ctx.prove("props/C10.v")
     else:
